@@ -1,0 +1,19 @@
+// Unless explicitly stated otherwise all files in this repository are licensed
+// under the Apache License Version 2.0.
+// This product includes software developed at Datadog (https://www.datadoghq.com/).
+// Copyright 2025-present Datadog, Inc.
+
+//go:build verif
+
+package server
+
+import (
+	"time"
+
+	"github.com/DataDog/datadog-traceroute/traceroute"
+)
+
+// NewServerWithTraceroute returns a Server that uses the given Traceroute instance
+func NewServerWithTraceroute(tr *traceroute.Traceroute) *Server {
+	return &Server{tr: tr, startTime: time.Now()}
+}
